@@ -322,6 +322,46 @@ pub fn payloads(ctx: &Ctx) {
     }
 }
 
+/// records that share their local name across namespaces (a standard attribute and an extension
+/// attribute of the same name, two extensions with the same attribute name): distinct records for
+/// the reader, so the copy must carry all of them
+pub fn namesakes(ctx: &Ctx) {
+    let variant = ctx.pick("variant", 4);
+    let n = [0usize, 1, 5][ctx.pick("points", 3)];
+    let mut proto = crate::cat::xyz(crate::cat::F32);
+    let b8 = m::Ty::Int { min: 0, max: 255 };
+    let b3 = m::Ty::Int { min: 0, max: 7 };
+    match variant {
+        0 => {
+            proto.push(crate::cat::rec("intensity", b8.clone()));
+            proto.push(crate::cat::ext_rec("ext", "intensity", b3.clone()));
+        }
+        1 => {
+            proto.push(crate::cat::ext_rec("las", "class", b8.clone()));
+            proto.push(crate::cat::ext_rec("ext", "class", b3.clone()));
+        }
+        2 => {
+            proto.insert(0, crate::cat::ext_rec("ext", "cartesianX", b3.clone()));
+            proto.push(crate::cat::ext_rec("las", "cartesianX", b8.clone()));
+        }
+        _ => {
+            proto.push(crate::cat::ext_rec("ext", "rowIndex", b3.clone()));
+            proto.push(crate::cat::rec("rowIndex", m::Ty::Int { min: 0, max: 1000 }));
+            proto.push(crate::cat::rec("columnIndex", m::Ty::Int { min: 0, max: 1000 }));
+        }
+    }
+    let mut scene = crate::scenes::scene(0);
+    scene.clouds.clear();
+    scene.extensions = vec![("ext".into(), "http://example.com/ext".into()), ("las".into(), "http://example.com/las".into())];
+    let points = crate::cat::points_for(&proto, n, 3);
+    scene.clouds.push(m::Cloud { meta: m::CloudMeta { guid: Some("c".into()), ..Default::default() }, proto, points, records: n as u64, file_offset: 0 });
+    let Some((enc, _)) = model_file(ctx, &scene, Knobs::NONE) else { return };
+    ctx.describe(|| format!("copy of a cloud whose prototype has namesakes in different namespaces (variant {variant}, {n} points)"));
+    if judge_copy(ctx, &enc.bytes, &|| format!("original: namesake variant {variant}, {n} points")) {
+        ctx.nontrivial();
+    }
+}
+
 /// section alignment in the copy: a first cloud of n byte-sized points moves the second cloud's
 /// section through all 255 aligned residues of the page payload
 pub fn align(ctx: &Ctx) {
